@@ -61,6 +61,11 @@ type LockReq struct {
 	// optional: field name -> receiver type; a call r.<field>.<M>(...) is inlined as
 	// the program of <type>.<M> (interface-typed fields with a known implementation)
 	Delegates map[string]string `json:"delegates,omitempty"`
+	// optional: names of calls on the receiver (methods or func-valued fields, r.<name>(...))
+	// whose position relative to the lock operations matters (e.g. a call that sleeps). When
+	// given, a second definition <as>_calls : list (string * list lockev) is emitted in which
+	// these calls appear as LCall "<name>" between the LOp entries; <as> itself is unchanged.
+	Marks []string `json:"marks,omitempty"`
 }
 
 type Spec struct {
@@ -498,6 +503,7 @@ func structFields(p *pkgInfo, name string) ([]fieldInfo, bool) {
 type lockOp string
 
 var lockDelegates map[string]string // of the LockReq being processed
+var lockMarks map[string]bool       // of the LockReq being processed; entries "call:<name>" in the result
 
 func lockProg(p *pkgInfo, recv, mutex, fn string, depth int) ([]string, bool) {
 	fd := findMethod(p, recv, fn, 3)
@@ -539,6 +545,15 @@ func lockProg(p *pkgInfo, recv, mutex, fn string, depth int) ([]string, bool) {
 					}
 				}
 			}
+		}
+		// r.<marked>(...)
+		if id, ok := sel.X.(*ast.Ident); ok && id.Name == rname && lockMarks[sel.Sel.Name] {
+			if isDefer {
+				deferred = append([]string{"call:" + sel.Sel.Name}, deferred...)
+			} else {
+				ops = append(ops, "call:"+sel.Sel.Name)
+			}
+			return true
 		}
 		// r.other(...)
 		if id, ok := sel.X.(*ast.Ident); ok && id.Name == rname && depth > 0 && !isDefer {
@@ -749,25 +764,47 @@ func main() {
 	var lb strings.Builder
 	lb.WriteString("(* GENERATED by /verif/gen from the current sources of the repository. Do not edit. *)\n")
 	lb.WriteString("From Coq Require Import String List.\nImport ListNotations.\n\n")
-	lb.WriteString("Inductive lockop := Lock | RLock | Unlock | RUnlock.\n\n")
+	lb.WriteString("Inductive lockop := Lock | RLock | Unlock | RUnlock.\n")
+	lb.WriteString("(* lock operations together with marked calls (LockReq.marks), in source order *)\n")
+	lb.WriteString("Inductive lockev := LOp (o : lockop) | LCall (f : string).\n\n")
 	for _, r := range spec.Locks {
 		p, err := loadPkg(*repo, r.Dir)
 		if err != nil {
 			continue
 		}
 		fmt.Fprintf(&lb, "Definition %s : list (string * list lockop) := [\n", r.As)
-		var rows []string
+		var rows, crows []string
 		lockDelegates = r.Delegates
+		lockMarks = map[string]bool{}
+		for _, m := range r.Marks {
+			lockMarks[m] = true
+		}
 		for _, fn := range r.Funcs {
-			ops, ok := lockProg(p, r.Recv, r.Mutex, fn, 4)
+			all, ok := lockProg(p, r.Recv, r.Mutex, fn, 4)
 			if !ok {
 				continue // omitted: the obligation that names it fails
 			}
+			var ops, evs []string
+			for _, o := range all {
+				if strings.HasPrefix(o, "call:") {
+					evs = append(evs, "LCall "+coqString(o[5:])+"%string")
+				} else {
+					ops = append(ops, o)
+					evs = append(evs, "LOp "+o)
+				}
+			}
 			rows = append(rows, fmt.Sprintf("  (%s, [%s])", coqString(fn)+"%string", strings.Join(ops, "; ")))
+			crows = append(crows, fmt.Sprintf("  (%s, [%s])", coqString(fn)+"%string", strings.Join(evs, "; ")))
 		}
 		lb.WriteString(strings.Join(rows, ";\n"))
 		lb.WriteString("\n].\n\n")
+		if len(r.Marks) > 0 {
+			fmt.Fprintf(&lb, "Definition %s_calls : list (string * list lockev) := [\n", r.As)
+			lb.WriteString(strings.Join(crows, ";\n"))
+			lb.WriteString("\n].\n\n")
+		}
 	}
+	lockMarks = nil
 	writeIfChanged(filepath.Join(*out, "LockProgs.v"), lb.String())
 }
 
